@@ -18,6 +18,8 @@ fn src_of(scene: &Scene) -> Option<(Xf, SrcSpec, f32)> {
         match op {
             Op::SetTransform(t) => ctm = *t,
             Op::Fill(_, s, o) => return Some((ctm, s.clone(), o.alpha)),
+            // (only used with a rectangle that covers the whole surface)
+            Op::FillRect(_, _, _, _, s, o) => return Some((ctm, s.clone(), o.alpha)),
             Op::Mask(_, _, _, _, _, s) => return Some((ctm, s.clone(), 1.0)),
             Op::Text(_, _, _, _, s, o) => return Some((ctm, s.clone(), o.alpha)),
             _ => {}
@@ -75,12 +77,12 @@ pub fn eval(scene: &Scene) -> Result<(u64, u64, u64), Violation> {
                 let s = Scene { w, h, dst: Dst::Zero, ops: vec![Op::SetTransform(cx), Op::Fill(path.clone(), SrcSpec::Solid(0xffffffff), Opts::default())] };
                 clip_cov = Some(render(&s).map_err(|p| Violation::new("model/reference-render-panicked", case.clone(), p))?);
             }
-            Op::Fill(..) | Op::Mask(..) | Op::Text(..) => break,
+            Op::Fill(..) | Op::FillRect(..) | Op::Mask(..) | Op::Text(..) => break,
             _ => {}
         }
     }
     // clip rectangles and layer bounds in force at the draw
-    let at = scene.ops.iter().position(|o| matches!(o, Op::Fill(..) | Op::Mask(..) | Op::Text(..))).unwrap_or(0);
+    let at = scene.ops.iter().position(|o| matches!(o, Op::Fill(..) | Op::FillRect(..) | Op::Mask(..) | Op::Text(..))).unwrap_or(0);
     // a shape that does not cover the surface: like a clip path, only the pixels it covers fully
     // show the gradient and the pixels it does not cover keep the destination
     if let Some(Op::Fill(path, _, o)) = scene.ops.get(at) {
@@ -222,8 +224,12 @@ fn stop_sets(q: bool) -> Vec<Vec<Stop>> {
         s(&[(0.0, 0xffff0000), (1.0, 0xff0000ff)]),
         s(&[(0.0, 0xff000000), (0.5, 0x80ffffff), (1.0, 0xff00ff00)]),
         s(&[(0.25, 0xffffff00), (0.5, 0xffffff00), (0.5, 0xff0000ff), (0.75, 0x400000ff)]),
+        // the same colour at both ends (a highlight band): a row that begins and ends beyond the
+        // gradient starts and ends on one colour and is still not constant
+        s(&[(0.0, 0xff000000), (0.5, 0xffffffff), (1.0, 0xff000000)]),
     ];
     if !q {
+        v.push(s(&[(0.0, 0x00ffffff), (0.3, 0xffffffff), (1.0, 0x00ffffff)]));
         v.push(s(&[(0.5, 0xc0804020)]));
         v.push(s(&[(0.0, 0xff000000), (0.2, 0xffffffff), (0.4, 0x00ff0000), (0.7, 0xff00ffff), (1.0, 0x80808080)]));
     }
@@ -396,6 +402,45 @@ impl Check for C12 {
                                 }
                             }
                             Err(v) => run.report(28_000 + s, v),
+                        }
+                    }
+                }
+            });
+        }
+        // the mask-less route: an integer fill_rect under the identity with an empty clip stack, inside a
+        // layer whose origin is not the surface origin (its clip rectangle popped after push_layer)
+        {
+            let fctx: Vec<(Vec<Op>, Vec<Op>)> = vec![
+                (vec![Op::PushClipRect(3, 5, S - 1, S - 2), Op::PushLayer(1.0, BlendMode::SrcOver), Op::PopClip], vec![Op::PopLayer]),
+                (vec![Op::PushClipRect(0, 7, S, S), Op::PushLayer(1.0, BlendMode::SrcOver), Op::PopClip], vec![Op::PopLayer]),
+                (vec![Op::PushClipRect(6, 0, S, S), Op::PushLayer(1.0, BlendMode::SrcOver), Op::PopClip], vec![Op::PopLayer]),
+                (vec![], vec![]),
+            ];
+            run.bound("fast-path fill_rect inside offset layers", format!("{} geometries x {} contexts (layer origins (3,5), (0,7), (6,0), none; the clip popped inside the layer) x Src / SrcOver x 3 spreads: fill_rect(0, 0, S, S) under the identity", ctx_geos.len(), fctx.len()));
+            run.par(ctx_geos.len() * fctx.len(), |s, l| {
+                let (kind, p) = &ctx_geos[s / fctx.len()];
+                let (pre, suf) = &fctx[s % fctx.len()];
+                for mode in [BlendMode::Src, BlendMode::SrcOver] {
+                    for spread in [Spr::Pad, Spr::Repeat, Spr::Reflect] {
+                        let src = make(kind, p, stops[0].clone(), spread);
+                        let mut ops = pre.clone();
+                        ops.push(Op::FillRect(0., 0., S as f32, S as f32, src, Opts { mode, alpha: 1.0, aa: true }));
+                        ops.extend(suf.iter().cloned());
+                        let scene = Scene { w: S, h: S, dst: Dst::Zero, ops };
+                        l.states += 1;
+                        l.transitions += scene.ops.len() as u64;
+                        l.traces += 1;
+                        l.evals += 1;
+                        match eval(&scene) {
+                            Ok((hsh, n, sk)) => {
+                                l.outcome(hsh);
+                                l.count("pixels_asserted", n);
+                                l.count("pixels_not_asserted_discontinuity", sk);
+                                if n >= 100 {
+                                    l.nontrivial += 1;
+                                }
+                            }
+                            Err(v) => run.report(29_000 + s, v),
                         }
                     }
                 }
